@@ -187,7 +187,7 @@ def a2_a5(chk, repo, rule_summary="C13-A2", summary_only=False):
     up in the returned tree - however io.open is written.  When the interpreter cannot follow the code (threads, ...)
     the def-use rules below take over."""
     from collections import OrderedDict
-    from ..shapes import Choice, Const, DictS, Fn, Interp, ListLit, Obj, ShapeError, Top, _Raise
+    from ..shapes import Choice, Const, DictS, Fn, Interp, ListLit, Obj, ShapeError, Top, TupS, _Raise
     io = repo.module("ceos_alos2.io")
     where = f"{io.relpath}:open"
     si = repo.module("ceos_alos2.sar_image")
@@ -228,7 +228,33 @@ def a2_a5(chk, repo, rule_summary="C13-A2", summary_only=False):
         def get_mapper(I_, a, kw):
             mapper_args.append(a[0] if a else kw.get("url"))
             root = a[0].v if a and isinstance(a[0], Const) and isinstance(a[0].v, str) else "?"
-            return Obj("Mapper", OrderedDict(root=Const(root.split("://", 1)[-1]), fs=Obj("InnerFS", OrderedDict())))
+            m = Obj("Mapper", OrderedDict(root=Const(root.split("://", 1)[-1]), fs=Obj("InnerFS", OrderedDict())))
+            # the product's store as far as io.open itself may look into it: an index next to the LAST image only
+            stored = {images[-1] + ".index": Const(b"index of " + images[-1].encode())}
+            KE = ["KeyError", "LookupError", "Exception", "BaseException", "object"]
+
+            def m_get(I2, a2, k2):
+                k_ = a2[0].v if isinstance(a2[0], Const) else None
+                if k_ not in stored:
+                    raise _Raise(f"KeyError {k_!r}", KE)
+                return stored[k_]
+
+            def m_getitems(I2, a2, k2):
+                keys = [x.v for x in I2.iterate(a2[0]) if isinstance(x, Const)]
+                oe = k2.get("on_error", a2[1] if len(a2) > 1 else Const("raise"))
+                oe = oe.v if isinstance(oe, Const) else None
+                out_ = OrderedDict()
+                for k_ in keys:
+                    if k_ in stored:
+                        out_[k_] = stored[k_]
+                    elif oe == "raise":
+                        raise _Raise(f"KeyError {k_!r}", KE)
+                    elif oe == "return":
+                        out_[k_] = Obj("Exception", OrderedDict(args=TupS([]), classes=Const(tuple(KE))))
+                return DictS(out_)
+            m.fields.update(__getitem__=Fn("py", impl=m_get, name="__getitem__"), getitems=Fn("py", impl=m_getitems, name="getitems"),
+                            __contains__=Fn("py", impl=lambda I2, a2, k2: Const(isinstance(a2[0], Const) and a2[0].v in stored), name="__contains__"))
+            return m
         sc.vars["fsspec"] = Obj("fsspec", OrderedDict(get_mapper=Fn("py", impl=get_mapper, name="fsspec.get_mapper")))
         sc.vars["open_summary"] = rec("open_summary", lambda a, k: marks["summary"])
         sc.vars["open_volume_directory"] = rec("open_volume_directory", lambda a, k: marks["volume"])
@@ -239,7 +265,9 @@ def a2_a5(chk, repo, rule_summary="C13-A2", summary_only=False):
         try:
             # product directories carry the scene and product id, which holds a dot ("1.5")
             PRODUCT = "s3://bucket/archive/ALOS2012345678-160229-UBSR1.5RUD"
-            out = I.call(I.lookup("open", sc), [Const(PRODUCT)], {"records_per_chunk": Const(7), "create_cache": Const(True), "use_cache": Const(False)})
+            # the dual-polarisation product is opened with the cache in use (whatever io.open does itself with the store then)
+            call_opts = {"records_per_chunk": 7, "create_cache": False, "use_cache": True} if len(images) == 2 and images[0].split("-")[1] == "HH" else {"records_per_chunk": 7, "create_cache": True, "use_cache": False}
+            out = I.call(I.lookup("open", sc), [Const(PRODUCT)], {k_: Const(v_) for k_, v_ in call_opts.items()})
         except (ShapeError, _Raise, RecursionError) as e:
             if summary_only:
                 raise AnalysisError(f"{where}: model evaluation not possible ({str(e)[:80]})")
@@ -261,10 +289,10 @@ def a2_a5(chk, repo, rule_summary="C13-A2", summary_only=False):
             got_paths = [x.v if isinstance(x, Const) else repr(x) for x in mapper_args]
             chk.require(got_paths == [PRODUCT], "C13-A2", where, "the product is opened at the location the caller names",
                         f"io.open({PRODUCT!r}) asks fsspec for {got_paths}: another directory than the one the caller named is opened", key="open:location")
-        results.append((images, out, calls, marks))
+        results.append((images, out, calls, marks, call_opts))
     if summary_only:
         return
-    for images, out, calls, marks in results:
+    for images, out, calls, marks, call_opts in results:
         n = len(images)
         by = {}
         for name, args, kwargs in calls:
@@ -284,9 +312,20 @@ def a2_a5(chk, repo, rule_summary="C13-A2", summary_only=False):
         got_imgs = [fname_of(c) for c in by.get("open_image", [])]
         chk.require(got_imgs == images, "C13-A2", where, f"every file listed as 'sar_imagery' is opened by open_image, in summary order ({n} image(s))",
                     f"open_image is called for {got_imgs}, the summary lists {images}: images are dropped, repeated or reordered", key="open:imagery-map", sample={"images": images})
-        want_opts = {"records_per_chunk": 7, "create_cache": True, "use_cache": False}
+        want_opts = dict(call_opts)
         for a, kw in by.get("open_image", []):
             extra = {k: v for k, v in kw.items() if k not in want_opts and k not in ("mapper", "path") and not (isinstance(v, Const) and v.v is None)}
+            crossed = []
+            for k_, v_ in extra.items():
+                if isinstance(v_, DictS):
+                    for key_, content in v_.items.items():
+                        if isinstance(content, Const) and isinstance(content.v, bytes) and content.v.startswith(b"index of ") and content.v[len(b"index of "):].decode() != key_:
+                            crossed.append((k_, key_, content.v[len(b"index of "):].decode()))
+            if crossed:
+                k_, key_, other = crossed[0]
+                chk.fail("C13-A2", where, f"open_image is handed {k_}[{key_!r}] = the index file stored next to {other!r} (the model product has an index next to its last image only): "
+                                          f"what was fetched for one image is paired with another image - that image's group is built from the other file's index", key="open:crossed-content")
+                continue
             if extra or len(a) > 2:
                 raise AnalysisError(f"{where}: open_image is handed something the model does not know the meaning of ({', '.join(f'{k}={v!r:.40}' for k, v in extra.items()) or 'more positional arguments'}); "
                                     f"what the image groups are built from is not decided")
